@@ -106,7 +106,7 @@ func (g *collection) Contains(obj Object) bool {
 	}
 	// all of obj must be contained by any number of the collection children
 	var objContained bool
-	obj.ForEach(func(geom Object) bool {
+	forEachPart(obj, func(geom Object) bool {
 		if geom.Empty() {
 			// ignore empties
 			return true
@@ -130,6 +130,26 @@ func (g *collection) Contains(obj Object) bool {
 		return true
 	})
 	return objContained
+}
+
+// forEachPart iterates over the parts of obj like obj.ForEach, but looks
+// through Feature wrappers: a Feature of a collection is not one opaque part,
+// its geometry's parts are.
+func forEachPart(obj Object, iter func(geom Object) bool) bool {
+	return obj.ForEach(func(geom Object) bool {
+		base := geom
+		for {
+			f, ok := base.(*Feature)
+			if !ok {
+				break
+			}
+			base = f.base
+		}
+		if _, ok := base.(Collection); ok && base != geom {
+			return forEachPart(base, iter)
+		}
+		return iter(geom)
+	})
 }
 
 func (g *collection) Spatial() Spatial { return g }
